@@ -70,12 +70,18 @@ CORPUS_SEEDS = [0, 1, 2, 3, 42, 12345, P31 - 1, P31 - 2, P31, P31 + 1, P31 + 5, 
                 (1 << 62) + 12345, (1 << 63) - 1, -1, -5, -P31, -(1 << 40) + 3, 1 << 30, 0x55555555, 0x2AAAAAAA, 0x40000001]
 
 
-def gen_ops(rng, total, with_head=True):
+def gen_ops(rng, total, with_head=True, reseed=False):
     ops = ["D %d" % HEAD] if with_head else []
     left = total - (HEAD if with_head else 0)
     while left > 0:
         r = rng.below(10)
-        if r == 0:
+        if reseed and rng.below(12) == 0:
+            # set_seed on the used object (histories: any number of draws, then a new seed)
+            ops.append("E %d" % (CORPUS_SEEDS[rng.below(len(CORPUS_SEEDS))] if rng.below(2) else rng.below(P31)))
+            n = 1 + rng.below(30)
+            ops.append("D %d" % n)
+            left -= n
+        elif r == 0:
             ops.append("R")
         elif r == 1:
             ops.append("T")
@@ -91,7 +97,7 @@ def gen_ops(rng, total, with_head=True):
 
 
 def gen_seed_case(rng, seed, total):
-    return ["S %d" % seed] + gen_ops(rng, total)
+    return ["S %d" % seed] + gen_ops(rng, total, reseed=True)
 
 
 def craft_block_boundary(rng, q, want):
@@ -472,7 +478,9 @@ def whole_binary_determinism(ck):
     if rc != 0:
         ck.breaks.append("h5digest does not build: " + out[-500:])
         return
-    cfgs = [("ion.param", ["--task-based"]), ("rhd.param", ["--task-based-rhd", "--number-of-steps", "2"])]
+    # ion_multi: 7 discrete sources + an external field, 5003 packets: the packets lost to rounding in the split over the sources are
+    # handed out by a random draw (DistributedPhotonSource), which must be reproducible too
+    cfgs = [("ion.param", ["--task-based"]), ("ion_multi.param", ["--task-based"]), ("rhd.param", ["--task-based-rhd", "--number-of-steps", "2"])]
     if not ck.quick:
         cfgs.append(("o7.param", ["--task-based"]))
     ncomp = 0
